@@ -36,19 +36,23 @@ int const PtStore::ptstore_vec_idx = 1;
 int const PtStore::ptstore_buf_idx = 2;
 
 bool PtStore::isAmbiguousNullarySymbolName(std::string_view name) const {
-    auto * values = symstore.getRefOrNull(name.data());
+    // the view need not end where its character array ends (the name between the bars of a quoted symbol)
+    std::string const key(name);
+    auto * values = symstore.getRefOrNull(key.c_str());
     if (not values) { return false; }
     assert(values);
     int matches = 0;
     for (SymRef sr : *values) {
-        if (symstore[sr].nargs() == 0) { matches++; }
+        // a constant fixed by the language (the numeral 1) is never meant by the quoted symbol |1|
+        if (symstore[sr].nargs() == 0 and not symstore[sr].isInterpreted()) { matches++; }
         if (matches > 1) return true;
     }
     return false;
 }
 
 vec<SymRef> PtStore::getHomonymousNullarySymbols(std::string_view name) const {
-    auto * values = symstore.getRefOrNull(name.data());
+    std::string const key(name);
+    auto * values = symstore.getRefOrNull(key.c_str());
     if (not values) { return {}; }
     vec<SymRef> ambiguousNullarySymbols;
     for (SymRef sr : *values) {
